@@ -134,7 +134,7 @@ inductive Op
   | postEv (c : Code) (n : Nat)                   -- post(event_handler,e) / post(io_handler,e,n)
   | setTimer (deadline slot : Nat)                -- set_timer_event; `slot` = the free index rand() found
   | cancelTimer (slot : Nat)                      -- cancel_timer_event(event_id)
-  | setIo (fd : Option Nat) (e : Ev) (selOk : Bool) -- set_io_event; `none` = invalid_socket; selOk = answer of reactor::select
+  | setIo (fd : Option Nat) (e : Ev) (selOk : Bool) (selErr : Code) -- set_io_event; `none` = invalid_socket; selOk/selErr = answer of reactor::select
   | cancelIo (fd : Option Nat)                    -- cancel_io_events
   | stop
   | reset                                         -- only while run() is not executing
@@ -143,7 +143,7 @@ inductive Op
 def push (s : St) (q : QItem) : St := { s with queue := s.queue ++ [q] }
 
 /-- body of `io_event_setter::operator()` (one critical section) -/
-def setterBody (s : St) (fd : Option Nat) (e : Ev) (t : Tok) (selOk : Bool) : St :=
+def setterBody (s : St) (fd : Option Nat) (e : Ev) (t : Tok) (selOk : Bool) (selErr : Code) : St :=
   match fd with
   | none => push s (.ev t .badf 0)
   | some fd =>
@@ -154,7 +154,7 @@ def setterBody (s : St) (fd : Option Nat) (e : Ev) (t : Tok) (selOk : Bool) : St
                         lost := s.lost ++ (if Gen.setterAssignsDirectly then d.rd.toList else []) }
       | .wr => { s with map := ioSet s.map fd { d with curOut := true, wr := some t },
                         lost := s.lost ++ (if Gen.setterAssignsDirectly then d.wr.toList else []) }
-    else push s (.ev t .sysErr 0)
+    else push s (.ev t selErr 0)
 
 def optItem (o : Option Tok) (c : Code) : List QItem :=
   match o with
@@ -201,11 +201,11 @@ def opStep (s : St) : Op → St
     | some t =>
       { s with queue := s.queue ++ [.ev t.tok .canceled 0],
                timers := removeSlot slot s.timers }
-  | .setIo fd e selOk =>
+  | .setIo fd e selOk selErr =>
     let t : Tok := ⟨s.next, .io⟩
     let s := { s with next := s.next + 1 }
     if s.polling || !s.reactorUp then push s (.setter fd e t)
-    else setterBody s fd e t selOk
+    else setterBody s fd e t selOk selErr
   | .cancelIo none => s
   | .cancelIo (some fd) =>
     if !cancelNeeded s fd then s
@@ -234,6 +234,7 @@ structure Event where
 structure LoopInp where
   now : Nat := 0               -- ptime::now()
   selOk : Bool := true         -- reactor::select answer, if the executed item is a setter functor
+  selErr : Code := .sysErr     -- … and the error it reports when it fails
   events : List Event := []    -- result of reactor::poll
   pollErr : Bool := false      -- poll failed with something else than EINTR
   deriving Repr, Inhabited
@@ -258,10 +259,10 @@ def dueTimers (now : Nat) (ts : List Timer) : List Timer := ts.takeWhile (·.dea
 def restTimers (now : Nat) (ts : List Timer) : List Timer := ts.dropWhile (·.deadline ≤ now)
 
 /-- running a popped completion_handler (outside the lock; functors take it again themselves) -/
-def execItem (s : St) (selOk : Bool) : QItem → St
+def execItem (s : St) (selOk : Bool) (selErr : Code) : QItem → St
   | .fn t => { s with log := s.log ++ [⟨t, .ok, 0, s.clock⟩] }
   | .ev t c n => { s with log := s.log ++ [⟨t, c, n, s.clock⟩] }
-  | .setter fd e t => setterBody s fd e t selOk
+  | .setter fd e t => setterBody s fd e t selOk selErr
   | .canceler fd => cancelerBody s fd
 
 def loopStep (s : St) (i : LoopInp) : St :=
@@ -279,7 +280,7 @@ def loopStep (s : St) (i : LoopInp) : St :=
     | [] => afterDrain s i
   | .executing =>
     match s.running with
-    | some q => { execItem s i.selOk q with running := none, counter := s.counter - 1, phase := .draining }
+    | some q => { execItem s i.selOk i.selErr q with running := none, counter := s.counter - 1, phase := .draining }
     | none => { s with counter := s.counter - 1, phase := .draining }
   | .polling =>
     let s := { s with polling := false }
